@@ -173,3 +173,87 @@ Print Assumptions C13_parse_errors.
 Print Assumptions C13_unescape_dangling.
 Print Assumptions C13_unescape_invalid.
 Print Assumptions C13_unescape_escape.
+(* --- the checkfile functions of b3sum/src/main.rs, translated statement by statement ----- *)
+(* gen/GenB3sumFns.v is regenerated from the current source text by tools/gen_coq_b3sumfns.py; each translated
+   function equals the function of Model/B3sum.v in the repaired configuration, for all inputs, result by result.
+   anyhow errors are the source's message strings (err_msg gives the message of each error class of the model);
+   cfg!(windows) = false; Path::to_string_lossy = utf8_lossy; strings are shorter than 2^64 bytes. *)
+From V Require Import Base.Str gen.GenB3sumFns Proofs.GenB3sumFnsP.
+
+Theorem C13_src_err_msg_injective : forall a b, err_msg a = err_msg b -> a = b.
+Proof. exact err_msg_injective. Qed.
+
+Theorem C13_src_hex_half_byte : forall c,
+  gen_hex_half_byte c = Ok (match hex_half_byte c with Some v => inr v | None => inl (err_msg EHex) end).
+Proof. exact gen_hex_half_byte_spec. Qed.
+
+Theorem C13_src_filepath_to_string : forall path_bytes,
+  gen_filepath_to_string utf8_lossy false path_bytes = Ok (filepath_to_string path_bytes).
+Proof. exact gen_filepath_to_string_spec. Qed.
+
+Theorem C13_src_filepath_to_string_any_lossy : forall lossy path,
+  gen_filepath_to_string lossy false path =
+  Ok (let s := lossy path in if existsb needs_escape s then (escape_path s, true) else (s, false)).
+Proof. exact gen_filepath_to_string_any_lossy. Qed.
+
+Theorem C13_src_check_for_invalid_characters : forall p,
+  gen_check_for_invalid_characters false p =
+  Ok (match check_for_invalid_characters p with Some e => inl (err_msg e) | None => inr tt end).
+Proof. exact gen_check_for_invalid_characters_spec. Qed.
+
+Theorem C13_src_unescape : forall fuel s, (length s <= fuel)%nat -> str_len s < 18446744073709551616 ->
+  gen_unescape fuel s = Ok (match unescape s with Some u => inr u | None => inl (err_msg EEscape) end).
+Proof. exact gen_unescape_spec. Qed.
+
+Theorem C13_src_split_untagged_check_line : forall las,
+  gen_split_untagged_check_line las = Ok (split_untagged_check_line las).
+Proof. exact gen_split_untagged_spec. Qed.
+
+(* the source returns (file, hash) for the tagged layout, the model (hash, file) *)
+Theorem C13_src_split_tagged_check_line : forall las,
+  gen_split_tagged_check_line las =
+  Ok (option_map (fun x : list N * list N => (snd x, fst x)) (split_tagged_check_line las)).
+Proof. exact gen_split_tagged_spec. Qed.
+
+(* the hex-digit loop `for byte in &mut hash_bytes` (place of one repaired defect) *)
+Theorem C13_src_parse_check_line_hex_loop : forall arr chars,
+  gen_parse_check_line_for1 arr chars =
+  match hex_loop fixed_cfg (length arr) chars with
+  | Ok (inr bs) => Ok (inr (bs, skip2 (length arr) chars))
+  | Ok (inl _) => Ok (inl (inl (err_msg EHex)))
+  | Panic c => Panic c
+  | OutOfFuel => OutOfFuel
+  end.
+Proof. exact for1_spec. Qed.
+
+(* ParsedCheckLine { file_string, is_escaped, file_path, expected_hash } = POk file_path expected_hash is_escaped file_string;
+   Err(message) = PErr of the class with that message; Panic = Panic *)
+Theorem C13_src_parse_check_line : forall fuel line, (length line <= fuel)%nat -> str_len line < 18446744073709551616 ->
+  gen_parse_check_line false fuel line =
+  match parse_check_line fixed_cfg line with
+  | Ok (PErr e) => Ok (inl (err_msg e))
+  | Ok (POk p h esc fstr) => Ok (inr (fstr, esc, p, h))
+  | Panic c => Panic c
+  | OutOfFuel => OutOfFuel
+  end.
+Proof.
+  intros fuel line L B. rewrite (gen_parse_check_line_spec fuel line L B).
+  destruct (parse_check_line fixed_cfg line) as [[e|p h esc fstr]|c|]; reflexivity.
+Qed.
+
+(* the translated parser never panics and never runs out of fuel on any line *)
+Theorem C13_src_parse_check_line_total : forall fuel line, (length line <= fuel)%nat -> str_len line < 18446744073709551616 ->
+  exists r, gen_parse_check_line false fuel line = Ok (parsed_of_model r) /\ parse_check_line fixed_cfg line = Ok r.
+Proof. exact gen_parse_check_line_total. Qed.
+
+Print Assumptions C13_src_err_msg_injective.
+Print Assumptions C13_src_hex_half_byte.
+Print Assumptions C13_src_filepath_to_string.
+Print Assumptions C13_src_filepath_to_string_any_lossy.
+Print Assumptions C13_src_check_for_invalid_characters.
+Print Assumptions C13_src_unescape.
+Print Assumptions C13_src_split_untagged_check_line.
+Print Assumptions C13_src_split_tagged_check_line.
+Print Assumptions C13_src_parse_check_line_hex_loop.
+Print Assumptions C13_src_parse_check_line.
+Print Assumptions C13_src_parse_check_line_total.
